@@ -43,3 +43,19 @@ def register2(R, P):
                                  "dict primitive operations"],
                 "assumptions": ["isolation between models ('operations on one model never change another') is a whole-program frame condition: bounded driver only",
                                 "termination of AutoNamer.get_next assumed for finite name sets"]}
+
+
+def register3(R, P):
+    P["C14"] = {"targets": ["_increment_backups"], "shards": {"_increment_backups": 6},
+                "trusted_base": ["pathlib.Path.exists/is_dir/is_file/unlink/rename, shutil.rmtree: external contracts over the ghost file-system view FS "
+                                 "(each may raise OSError; rename/unlink atomic; a failing rmtree may leave its own path in any state)",
+                                 "string facts GEN-INJ: generation paths base+'_BAK'+str(k) are pairwise distinct; concatenation is associative"],
+                "assumptions": ["on-disk intactness of what the writer produces, zip staging and registry/flag clean-up of ModelWriter/ModelReader are covered by the "
+                                "bounded fault-injection driver only (serializer_6 writer/reader are outside the supported subset)"]}
+    P["C04"] = {"targets": ["abs_to_rel_tuple", "rel_to_abs_tuple"], "lemmas": ["C04-ROUNDTRIP-TUPLE"], "shards": {},
+                "trusted_base": ["str * int and len(str) as uninterpreted functions with the facts len('.'*n) == n, '.'*1 == '.'"],
+                "assumptions": ["the text layer (encoders/parsers), pickling and ziputil are outside the supported subset: bounded round-trip driver only"]}
+    P["C10"] = {"targets": list(P["_paths"]), "shards": {},
+                "trusted_base": ["str.split('.') / '.'.join as the identity on the component-sequence representation of dotted names"],
+                "assumptions": ["SpaceGraph.get_relative, ReferenceImpl.on_inherit, SpaceManager.new_ref/change_ref and DynBaseRefDict.wrap_impl are not yet under contract: "
+                                "bounded driver (full placement grid) only"]}
